@@ -4,7 +4,11 @@
 (* could be created as file names)}}.                                        *)
 EXTENDS Glob, TraceLib
 
-InDomain(in, obs) == GlobInDomain(in.pat, in.fold)
+\* which non-ASCII characters belong to [:alpha:] etc. depends on the locale: not judged
+HasClass(p) == \E i \in 1..(Len(p) - 1) : p[i] = LBR /\ p[i + 1] = COLON
+InDomain(in, obs) ==
+  /\ GlobInDomain(in.pat, in.fold)
+  /\ (HasClass(in.pat) => \A k \in DOMAIN in.subjects : \A i \in DOMAIN in.subjects[k] : in.subjects[k][i] < 128)
 
 Expected(in) == SelectSeq([k \in DOMAIN in.subjects |-> k], LAMBDA k : GlobMatch(in.pat, in.subjects[k], in.fold))
 
